@@ -521,11 +521,28 @@ def classify_P(line, res):
     return "panic:%s:%s:%s" % (target, m.group(1) if m else "?", re.sub(r"[^a-z ]", "", res.split("msg=")[-1].lower())[:40].strip().replace(" ", "-"))
 
 
-def check_W(ctx, h, line, hres, mres, stats):
-    """returns list of (signature, summary, replay) for property-level failures on this history"""
+SPEC_EXE = [None]      # the Lean model driver, when it built: judge = Spec.lean (the documented semantics as a Lean model)
+
+
+def lean_spec(ctx, line):
+    """documented semantics of a W history: Spec.lean through the driver (WS line); the python transcription spec_W is
+    only the fallback when the Lean driver is not available (and the generator's length tracker)"""
+    if SPEC_EXE[0]:
+        rc, o, _ = ctx.run_lines([SPEC_EXE[0]], ["WS" + line[1:]], timeout=300)
+        if o and not o[0].startswith("BAD"):
+            return o[0].split(" ; ")
+    return None
+
+
+def check_W(ctx, h, line, hres, spec, stats):
+    """returns list of (signature, summary, replay) for property-level failures on this history;
+    `spec` = the Lean spec model's records for this line (None: ask the driver / fall back to python)"""
     viol = []
     hrec = hres.split(" ; ")
-    spec = spec_W(line, hrec)
+    if spec is None:
+        spec = lean_spec(ctx, line)
+    if spec is None:
+        spec = spec_W(line, hrec)
     ops = line.split()[5:]
     has_gr_before = False
     for k, tok in enumerate(ops):
@@ -681,6 +698,16 @@ def main(ctx):
                     continue
                 report("%s:%s" % (what, re.sub(r"\W+", "-", both[i])[:40]), "%s: implementation %s, documented behaviour (model) %s" % (both[i], hres[i][:300], (mres[i] or "")[:300]),
                        {"kind": "history" if gname == "M" else "input", "lines": [both[i]], "expected": [mres[i]], "observed": [hres[i]]})
+    # the judge for W / V histories: the Lean spec model (Spec.lean), run through the driver on the same lines
+    wspec = {}
+    if model_ok:
+        SPEC_EXE[0] = model
+        widx = groups["W"] + groups["V"]
+        rc, sres, err = ctx.run_lines([model], ["WS" + both[i][1:] for i in widx], timeout=3600)
+        if len(sres) == len(widx):
+            wspec = {i: r.split(" ; ") for i, r in zip(widx, sres) if not r.startswith("BAD")}
+        ctx.obligation("oracle:lean-spec-model-ran", "correspondence", len(wspec) == len(widx), "%d of %d W/V histories judged by Spec.lean" % (len(wspec), len(widx)))
+    ctx.stats["W_judged_by_lean_spec"] = len(wspec)
     for i in groups["W"] + groups["V"]:
         line = both[i] if both[i].startswith("W ") else "W" + both[i][1:]
         isV = both[i].startswith("V ")
@@ -690,7 +717,7 @@ def main(ctx):
             opmix[t.split(":")[0]] = opmix.get(t.split(":")[0], 0) + 1
         if len(ops) >= 3:
             ctx.nontriv(line)
-        for sig, summary, k in check_W(ctx, h, line, hres[i], mres[i], ctx.stats):
+        for sig, summary, k in check_W(ctx, h, line, hres[i], wspec.get(i), ctx.stats):
             # shrink: shortest prefix is k+1 ops; then ddmin inside the prefix
             pre = line.split()[:5]
             def hline(l2, isV=isV):
@@ -708,7 +735,7 @@ def main(ctx):
                 l2 = " ".join(pre + sub)
                 rc, o, _ = ctx.run_lines([h], [hline(l2)], timeout=300)
                 if isV: sig = sig.replace("wrapcache", "structfield")
-                report(sig, summary, {"kind": "history", "lines": [hline(l2)], "expected": spec_W(l2), "observed": o})
+                report(sig, summary, {"kind": "history", "lines": [hline(l2)], "expected": lean_spec(ctx, l2) or spec_W(l2), "observed": o})
     # numeric: exact part of the table is a property-level statement
     for i in groups["N"]:
         if hres[i].startswith("INCONCLUSIVE"): continue
@@ -915,7 +942,8 @@ def replay(ctx, path):
         if l[0] == "K":
             print("documented spec:", " ; ".join(x or "?" for x in spec_K(l)))
         if l[0] in "WV":
-            print("documented spec:", " ; ".join(spec_W("W" + l[1:])))
+            SPEC_EXE[0] = ctx.model_exe() if os.path.exists(ctx.model_exe()) else None
+            print("documented spec:", " ; ".join(lean_spec(ctx, "W" + l[1:]) or spec_W("W" + l[1:])))
     if r.get("expected"):
         print("expected      :", r["expected"])
     return 0
